@@ -468,13 +468,45 @@ theorem arrayLoop_ok {f32 : List Char → Option (List Char)} {p : PM Gen} (hp :
     exact Rel.refl f32 s hs
   | n + 1, s, vs, s', hs, h => by
     rw [arrayLoop] at h
+    simp only [getTokenpos_bind] at h
     obtain ⟨v, s1, h1, h2⟩ := bind_ok h
-    obtain ⟨vs', s2, h3, h4⟩ := bind_ok h2
-    obtain ⟨rfl, rfl⟩ := pure_ok h4
+    simp only [getTokenpos_bind] at h2
     have r1 := hp s v s1 hs h1
-    have r2 := arrayLoop_ok hp n s1 vs' s2 r1.2.1 h3
-    rw [valuesL]
-    exact r1.trans r2
+    split at h2
+    · obtain ⟨rfl, rfl⟩ := pure_ok h2
+      rw [valuesL, valuesL, List.append_nil]
+      exact r1
+    · obtain ⟨vs', s2, h3, h4⟩ := bind_ok h2
+      obtain ⟨rfl, rfl⟩ := pure_ok h4
+      have r2 := arrayLoop_ok hp n s1 vs' s2 r1.2.1 h3
+      rw [valuesL]
+      exact r1.trans r2
+
+/-- **the array loop stops at an element that consumes nothing**: the number of elements (= the number of times the
+    element parser ran) is at most `dim`, and at most one more than the number of tokens consumed -/
+theorem arrayLoop_length {p : PM Gen} (hp : ∀ s g s', s.pos ≤ e.toks.size → p e s = .ok g s' → s.pos ≤ s'.pos ∧ s'.pos ≤ e.toks.size) :
+    ∀ (n : Nat) (s : PState) (vs : List Gen) (s' : PState), s.pos ≤ e.toks.size → arrayLoop p n e s = .ok vs s' →
+    s.pos ≤ s'.pos ∧ s'.pos ≤ e.toks.size ∧ vs.length ≤ n ∧ vs.length ≤ s'.pos - s.pos + 1
+  | 0, s, vs, s', hs, h => by
+    rw [arrayLoop] at h
+    obtain ⟨rfl, rfl⟩ := pure_ok h
+    exact ⟨Nat.le_refl _, hs, Nat.le_refl _, by simp⟩
+  | n + 1, s, vs, s', hs, h => by
+    rw [arrayLoop] at h
+    simp only [getTokenpos_bind] at h
+    obtain ⟨v, s1, h1, h2⟩ := bind_ok h
+    simp only [getTokenpos_bind] at h2
+    have r1 := hp s v s1 hs h1
+    split at h2
+    · obtain ⟨rfl, rfl⟩ := pure_ok h2
+      exact ⟨r1.1, r1.2, by simp, by simp⟩
+    · rename_i hne
+      obtain ⟨vs', s2, h3, h4⟩ := bind_ok h2
+      obtain ⟨rfl, rfl⟩ := pure_ok h4
+      have r2 := arrayLoop_length hp n s1 vs' s2 r1.2 h3
+      refine ⟨by omega, r2.2.1, by simp only [List.length_cons]; omega, ?_⟩
+      simp only [List.length_cons]
+      omega
 
 theorem seqLoop_ok {f32 : List Char → Option (List Char)} {p : PM Gen} (hp : RelP e f32 p) :
     ∀ (fuel : Nat) (acc : List Gen) (s : PState) (vs : List Gen) (s' : PState), s.pos ≤ e.toks.size →
@@ -691,6 +723,25 @@ theorem dispatch_ok (f32 : List Char → Option (List Char)) : ∀ (l : List (Ta
     · exact dispatch_ok f32 rest tag b p h
 end
 
+/-- the elements of an interpreted array: at most `dim`, and at most one more than the tokens consumed -/
+theorem itemP_array_length (f32 : List Char → Option (List Char)) (of : Spec) (dim : Nat) (ctx : Ctx) (s s' : PState)
+    (g : Gen) (hs : s.pos ≤ e.toks.size) (h : itemP f32 (.array of dim) ctx e s = .ok g s') :
+    ∀ vs, g = .array vs → vs.length ≤ dim ∧ vs.length ≤ s'.pos - s.pos + 1 := by
+  rw [itemP.eq_def] at h
+  dsimp only at h
+  split at h
+  · obtain ⟨v, s1, h1, h2⟩ := bind_ok h
+    obtain ⟨off, h2⟩ := lineOffset_ok h2
+    obtain ⟨rfl, rfl⟩ := pure_ok h2
+    intro vs hvs; cases hvs
+  · obtain ⟨vs, s1, h1, h2⟩ := bind_ok h
+    obtain ⟨rfl, rfl⟩ := pure_ok h2
+    intro vs' hvs
+    cases hvs
+    have := arrayLoop_length (p := itemP f32 of ctx)
+      (fun s g s' hs h => by have := itemP_ok f32 of ctx s g s' hs h; exact ⟨this.1, this.2.1⟩) dim s vs s1 hs h1
+    exact ⟨this.2.2.1, this.2.2.2⟩
+
 /-- the cursor is at a `/end` token -/
 def AtEnd (e : Env) (s : PState) : Prop := ∃ t, e.toks[s.pos]? = some t ∧ t.ty = 2
 
@@ -711,19 +762,23 @@ theorem fromSpec_ok {f32 : List Char → Option (List Char)} {ctx : Ctx} {sp : S
     rfl
   rcases attempt_ok h with ⟨g, s1, h1, h2⟩ | ⟨d, s1, h1, h2⟩
   · dsimp only at h2
-    simp only [peekToken_bind] at h2
-    cases ht : e.toks[s1.pos]? with
-    | none => rw [ht] at h2; exact hreset s1 h2
+    simp only [getEnv_bind] at h2
+    obtain ⟨u, s2, h3, h4⟩ := bind_ok h2
+    have r1 := itemP_ok f32 sp ctx s g s1 hs h1
+    have r2 := skipComments_ok f32 ctx _ s1 u s2 h3 r1.2.1
+    simp only [peekToken_bind] at h4
+    cases ht : e.toks[s2.pos]? with
+    | none => rw [ht] at h4; exact hreset s2 h4
     | some t =>
-      rw [ht] at h2
-      dsimp only at h2
-      split at h2
+      rw [ht] at h4
+      dsimp only at h4
+      split at h4
       · rename_i h2'
-        obtain ⟨rfl, rfl⟩ := pure_ok h2
+        obtain ⟨rfl, rfl⟩ := pure_ok h4
         refine ⟨?_, t, ht, h2'⟩
         rw [values_makeBlock]
-        exact itemP_ok f32 sp ctx s g s1 hs h1
-      · exact hreset s1 h2
+        simpa using r1.trans r2
+      · exact hreset s2 h4
   · exact hreset s1 h2
 
 theorem trySpecs_ok {f32 : List Char → Option (List Char)} {ctx : Ctx} : ∀ (specs : List Spec) (s : PState)
